@@ -18,6 +18,8 @@ Sub-checks:
 """
 
 import re
+import copy
+import functools
 import string as _string
 import warnings
 
@@ -31,7 +33,7 @@ from pywbem import _mof_compiler
 from pywbem._mof_compiler import (MOFCompiler, MOFWBEMConnection,
                                   MOFCompileError)
 
-from .runner import Sub, exc_detail
+from .runner import Sub, exc_detail, exc_signature
 from . import strategies as S
 
 PROPERTY = 'C08'
@@ -88,9 +90,11 @@ ASSUMPTIONS = [
     "case-insensitively",
     "mofstr() is called with indent 3..13, 0 <= line_pos <= maxline + 20, "
     "end_space 0..5 - the ranges its callers in tomof() use",
-    "passing cases are compiled with a per-process MOFCompiler into a "
-    "fresh namespace; every failing case is re-compiled with a fresh "
-    "MOFCompiler and only that verdict is reported",
+    "every compilation uses a new MOFCompiler on a new MOFWBEMConnection; "
+    "to save the ~45 ms PLY needs to build its tables the new parser object "
+    "is a shallow copy of a never-used parser (shared read-only tables); a "
+    "failure signature is reported only after it was reproduced once per "
+    "process with a MOFCompiler built the regular way",
 ]
 
 # Filled from mutation runs, see the end of the module
@@ -105,17 +109,18 @@ translatable true uint16 uint32 uint64 uint8""".split())
 NS = 'root/c08'
 
 # ---------------------------------------------------------------------------
-# generators
+# generators (strategy objects are built once: building and validating them
+# inside every draw dominated the run time)
 
 _ID_START = _string.ascii_letters + '_'
 _ID_CONT = _string.ascii_letters + _string.digits + '_'
 
 
 def _not_keyword(s):
-    return s.lower() not in MOF_KEYWORDS
+    return s.lower() not in MOF_KEYWORDS and not s.startswith('R_')
 
 
-def ident():
+def _ident():
     "ASCII identifier, not a keyword; sometimes long (pushes line_pos)"
     longid = st.builds(lambda a, b: a + b, st.sampled_from(_ID_START),
                        st.text(alphabet=_ID_CONT, min_size=20, max_size=44))
@@ -126,24 +131,32 @@ def ident():
         S.ident(1, 10), S.ident(1, 10), longid).filter(_not_keyword)
 
 
-def classname():
+IDENT = _ident()
+
+
+def _classname():
     return st.one_of(
         st.sampled_from(['CIM_Foo', 'TST_Bar', 'C1', 'My_Class', 'A_b']),
         st.builds(lambda a, b: a + '_' + b, S.ident(1, 4), S.ident(1, 12)),
-        ident()).filter(_not_keyword)
+        IDENT).filter(_not_keyword)
 
+
+CLASSNAME = _classname()
+# names of stub classes (targets of REF / EmbeddedInstance / superclass) are
+# kept apart from the names of the classes under test
+STUBNAME = CLASSNAME.map(lambda s: 'R_' + s)
 
 _ESC_CHARS = ['"', "'", '\\', '\n', '\t', '\r', '\b', '\f', '\x01', '\x02',
               '\x0b', '\x1b', '\x1f']
-_NONASCII = ['\xe4', '€', '�', '\U0001F600', '\U00010000', '\x85',
-             ' ', '\x7f', '\xa0', '퟿', '￿']
+_NONASCII = ['\xe4', '\u20ac', '\ufffd', '\U0001F600', '\U00010000', '\x85',
+             '\u2028', '\x7f', '\xa0', '\ud7ff', '\uffff']
 _MOFISH = ['instance of X { p = "a"; };', '\\x0041', '\\n', '\\"', '*/', '/*',
            '//', '{', '}', ';', ',', '$a', '#pragma', 'NULL', "\\'", '\\\\',
            '" "', '"\n"', ' = ']
 _FILL = 'aX9_-.\xe9"\'\\\x01'
 
 
-def mof_string():
+def _mof_string():
     "strings of any length and content (see RULE)"
     word = st.text(alphabet=_string.ascii_letters + _string.digits,
                    min_size=1, max_size=12)
@@ -169,45 +182,56 @@ def mof_string():
         st.one_of(st.just(''), word))
     simple = st.sampled_from(['', 'a', 'abc', 'Hello World', ' ', ' lead',
                               'trail ', "it's", 'say "hi"', 'a\\b'])
-    return st.one_of(simple, general, general, boundary)
+    return st.one_of(simple, simple, general, general, boundary)
 
 
-def short_string():
-    "printable string without control characters (reference keys)"
+STRINGS = _mof_string()
+
+
+def _short_string():
+    """
+    printable string without control characters (reference keys); no '='
+    because a string key that looks like a WBEM URI is parsed back as a
+    reference (a C07 matter)
+    """
     return st.one_of(
         st.sampled_from(['', 'a', 'key1', 'a"b', "it's", 'a\\b', 'x y',
-                         '\xe4€', 'a,b=c', 'C.k="1"']),
+                         '\xe4\u20ac', 'a,b.c']),
         st.text(alphabet=_string.ascii_letters + _string.digits +
-                ' "\'\\,=.:/\xe4', max_size=12))
+                ' "\'\\,.:/\xe4', max_size=12))
 
 
-def char16():
+def _char16():
     return st.one_of(
         st.sampled_from(['a', 'Z', ' ', "'", '"', '\\', '\n', '\t', '\x01',
-                         '\x1f', '\xe4', '€', '�', '0', '\x7f']),
+                         '\x1f', '\xe4', '\u20ac', '\ufffd', '0', '\x7f']),
         st.characters(min_codepoint=1, max_codepoint=0xFFFF,
                       blacklist_categories=('Cs',)))
 
 
-def ref_path():
+CHAR16 = _char16()
+
+
+def _ref_path():
     "instance path recipe (strategies.build form) with C07-safe content"
     def mk(cn, keys, ns, h):
         if ns is None:
             h = None
         return {'k': 'ipath', 'classname': cn, 'keys': keys,
                 'namespace': ns, 'host': h}
+    sstr = _short_string()
     kv = st.one_of(
-        st.tuples(st.just('string'), short_string()),
-        st.tuples(st.just('string'), short_string()),
+        st.tuples(st.just('string'), sstr),
+        st.tuples(st.just('string'), sstr),
         st.tuples(st.just('uint8'), S.cim_int('uint8')),
         st.tuples(st.just('sint32'), S.cim_int('sint32')),
         st.tuples(st.just('uint64'), S.cim_int('uint64')),
         st.tuples(st.just('boolean'), st.booleans()))
-    keys = st.lists(st.tuples(ident(), kv), min_size=1, max_size=3,
+    keys = st.lists(st.tuples(IDENT, kv), min_size=1, max_size=3,
                     unique_by=lambda x: x[0].lower()).map(
                         lambda l: [(n, kt, v) for n, (kt, v) in l])
     return st.builds(
-        mk, classname(), keys,
+        mk, STUBNAME, keys,
         st.one_of(st.none(), st.sampled_from(['root/cimv2', 'interop',
                                               'a/b/c', 'root'])),
         st.one_of(st.none(), st.sampled_from(['myhost', 'srv1.example.com',
@@ -216,30 +240,36 @@ def ref_path():
                                               ])))
 
 
-def scalar(t, strings):
+REF_PATH = _ref_path()
+DATETIME = S.datetime_scalar()
+
+
+@functools.lru_cache(maxsize=None)
+def scalar(t):
     if t == 'boolean':
         return st.booleans()
     if t == 'string':
-        return strings
+        return STRINGS
     if t == 'char16':
-        return char16()
+        return CHAR16
     if t == 'datetime':
-        return S.datetime_scalar()
+        return DATETIME
     if t in S.INT_TYPES:
         return S.cim_int(t)
     if t in S.REAL_TYPES:
         return S.cim_real(t, allow_nan=False, allow_inf=False)
     if t == 'reference':
-        return ref_path()
+        return REF_PATH
     raise ValueError(t)
 
 
-def value_for(t, is_array, strings, null=0.2, size=None):
+@functools.lru_cache(maxsize=None)
+def value_for(t, is_array, null=2, size=None):
     """
-    value of CIM type t: None (with probability ~null), scalar, or list with
+    value of CIM type t: None (null out of 10 times), scalar, or list with
     NULL entries (exactly `size` entries if size is given)
     """
-    sc = scalar(t, strings)
+    sc = scalar(t)
     if is_array:
         elem = st.one_of(sc, sc, sc, st.none())
         if size is not None:
@@ -250,70 +280,74 @@ def value_for(t, is_array, strings, null=0.2, size=None):
         v = sc
     if null <= 0:
         return v
-    weights = [v] * max(1, int(round((1 - null) * 5))) + \
-        [st.none()] * max(1, int(round(null * 5)))
-    return st.one_of(weights)
+    return st.one_of([v] * (10 - null) + [st.none()] * null)
 
 
 TRISTATE = st.sampled_from([None, None, True, False])
 SCOPES = S.SCOPES
+ARRAY_SIZE = st.one_of(st.none(), st.none(), st.integers(1, 4))
+QUAL_NAME = st.one_of(
+    st.sampled_from(['Description', 'Key', 'MaxLen', 'Values',
+                     'Association', 'Indication', 'Q1', 'Version']),
+    IDENT).filter(lambda s: s.lower() not in ('embeddedinstance',
+                                              'embeddedobject', 'abstract'))
+QUAL_TYPE = st.sampled_from(S.QUAL_TYPES)
+SIMPLE_TYPE = st.sampled_from(S.SIMPLE_TYPES)
+SCOPE_DICT = st.dictionaries(st.sampled_from(SCOPES), st.booleans(),
+                             max_size=8)
+SMALL = st.integers(0, 9)
+MASK = st.integers(1, 2 ** 12)
 
 
-def qualdecl_recipe(strings, names=None, for_use=False):
+@st.composite
+def qualdecl_recipe(draw, for_use=False):
     """
     strategies.build 'qualdecl' recipe.  for_use: declaration that is used
     on class elements (no default value, scope ANY).
     """
-    @st.composite
-    def gen(draw):
-        name = draw(names if names is not None else st.one_of(
-            st.sampled_from(['Description', 'Key', 'MaxLen', 'Values',
-                             'Association', 'Indication', 'Q1', 'Version']),
-            ident()))
-        t = draw(st.sampled_from(S.QUAL_TYPES))
-        is_array = draw(st.booleans())
-        asz = draw(st.one_of(st.none(), st.none(), st.integers(1, 4))) \
-            if is_array else None
-        if for_use:
-            value = None
-            scopes = [('ANY', True)]
-        else:
-            value = draw(value_for(t, is_array, strings, null=0.2, size=asz))
-            sc = draw(st.dictionaries(st.sampled_from(SCOPES), st.booleans(),
-                                      max_size=8))
-            one = draw(st.sampled_from(SCOPES))
-            sc[one] = True      # at least one scope
-            if draw(st.integers(0, 9)) == 0:
-                sc = {s: True for s in SCOPES}
-            scopes = sorted(sc.items())
-        return {'k': 'qualdecl', 'name': name, 'type': t, 'value': value,
-                'is_array': is_array, 'array_size': asz, 'scopes': scopes,
-                'overridable': draw(TRISTATE), 'tosubclass': draw(TRISTATE),
-                'toinstance': None if for_use else draw(TRISTATE),
-                'translatable': draw(TRISTATE)}
-    return gen()
+    name = draw(QUAL_NAME)
+    t = draw(QUAL_TYPE)
+    is_array = draw(st.booleans())
+    asz = draw(ARRAY_SIZE) if is_array else None
+    if for_use:
+        value = None
+        scopes = [('ANY', True)]
+    else:
+        value = draw(value_for(t, is_array, 2, asz))
+        sc = draw(SCOPE_DICT)
+        sc[draw(st.sampled_from(SCOPES))] = True      # at least one scope
+        if draw(SMALL) == 0:
+            sc = {s: True for s in SCOPES}
+        scopes = sorted(sc.items())
+    return {'k': 'qualdecl', 'name': name, 'type': t, 'value': value,
+            'is_array': is_array, 'array_size': asz, 'scopes': scopes,
+            'overridable': draw(TRISTATE), 'tosubclass': draw(TRISTATE),
+            'toinstance': None if for_use else draw(TRISTATE),
+            'translatable': draw(TRISTATE)}
+
+
+QUALDECL = qualdecl_recipe()
+QUALDECLS_FOR_USE = st.lists(qualdecl_recipe(for_use=True), max_size=4,
+                             unique_by=lambda d: d['name'].lower())
 
 
 def _swap(s, mask):
     return S.swapcase_name(s, mask)
 
 
-@st.composite
-def _quals_from(draw, decls, strings, max_size=2, exclude=()):
+def _quals_from(draw, decls, max_size=2):
     "qualifier value recipes for declarations in decls"
-    cand = [d for d in decls if d['name'].lower() not in exclude]
-    if not cand:
+    if not decls:
         return []
-    idx = draw(st.lists(st.integers(0, len(cand) - 1), max_size=max_size,
+    idx = draw(st.lists(st.integers(0, len(decls) - 1), max_size=max_size,
                         unique=True))
     out = []
     for i in idx:
-        d = cand[i]
-        v = draw(value_for(d['type'], d['is_array'], strings, null=0.1,
-                           size=d['array_size']))
+        d = decls[i]
+        v = draw(value_for(d['type'], d['is_array'], 1, d['array_size']))
         name = d['name']
-        if draw(st.integers(0, 7)) == 0:
-            name = _swap(name, draw(st.integers(1, 2 ** 12)))
+        if draw(SMALL) == 0:
+            name = _swap(name, draw(MASK))
         out.append({'k': 'qual', 'name': name, 'type': d['type'], 'value': v,
                     'is_array': d['is_array'], 'propagated': None,
                     'overridable': d['overridable'],
@@ -323,40 +357,40 @@ def _quals_from(draw, decls, strings, max_size=2, exclude=()):
     return out
 
 
+PROP_KIND = st.sampled_from(['plain'] * 8 + ['ref', 'ref', 'emb'])
+PARAM_TYPE = st.sampled_from(S.ALL_TYPES + ['reference'])
+OPT_REF = st.one_of(st.none(), st.none(), st.none(), REF_PATH)
+OPT_STUB = st.one_of(st.none(), st.none(), STUBNAME)
+
+
 @st.composite
 def cls_case(draw):
-    strings = mof_string()
-    decls = draw(st.lists(qualdecl_recipe(strings, for_use=True), max_size=4,
-                          unique_by=lambda d: d['name'].lower()))
-    nprops = draw(st.integers(0, 4))
+    decls = draw(QUALDECLS_FOR_USE)
     props = []
     seen = set()
-    for _ in range(nprops):
-        name = draw(ident())
+    for _ in range(draw(st.integers(0, 4))):
+        name = draw(IDENT)
         if name.lower() in seen:
             continue
         seen.add(name.lower())
-        kind = draw(st.sampled_from(['plain'] * 8 + ['ref', 'ref', 'emb']))
+        kind = draw(PROP_KIND)
         if kind == 'ref':
             t, is_array, asz = 'reference', False, None
-            refcls = draw(classname())
-            value = draw(st.one_of(st.none(), st.none(), st.none(),
-                                   ref_path()))
+            refcls = draw(STUBNAME)
+            value = draw(OPT_REF)
             emb = None
         elif kind == 'emb':
             t, is_array, asz = 'string', draw(st.booleans()), None
             refcls, value = None, None
-            emb = draw(classname())
+            emb = draw(STUBNAME)
         else:
-            t = draw(st.sampled_from(S.SIMPLE_TYPES))
+            t = draw(SIMPLE_TYPE)
             is_array = draw(st.booleans())
-            asz = draw(st.one_of(st.none(), st.none(), st.integers(1, 4))) \
-                if is_array else None
-            value = draw(value_for(t, is_array, strings, null=0.4, size=asz))
+            asz = draw(ARRAY_SIZE) if is_array else None
+            value = draw(value_for(t, is_array, 4, asz))
             refcls, emb = None, None
-        qs = draw(_quals_from(decls, strings))
+        qs = _quals_from(draw, decls)
         if emb:
-            qs = [q for q in qs if q['name'].lower() != 'embeddedinstance']
             qs.append({'k': 'qual', 'name': 'EmbeddedInstance',
                        'type': 'string', 'value': emb, 'is_array': False,
                        'propagated': None, 'overridable': None,
@@ -369,50 +403,53 @@ def cls_case(draw):
                       'qualifiers': qs})
     meths = []
     for _ in range(draw(st.integers(0, 2))):
-        name = draw(ident())
+        name = draw(IDENT)
         if name.lower() in seen:
             continue
         seen.add(name.lower())
         params = []
         pseen = set()
         for _ in range(draw(st.integers(0, 3))):
-            pname = draw(ident())
+            pname = draw(IDENT)
             if pname.lower() in pseen:
                 continue
             pseen.add(pname.lower())
-            t = draw(st.sampled_from(S.ALL_TYPES + ['reference']))
+            t = draw(PARAM_TYPE)
             is_array = draw(st.booleans())
-            asz = draw(st.one_of(st.none(), st.none(), st.integers(1, 9))) \
-                if is_array else None
+            asz = draw(ARRAY_SIZE) if is_array else None
             params.append({'k': 'param', 'name': pname, 'type': t,
                            'value': None, 'is_array': is_array,
                            'array_size': asz,
-                           'reference_class': draw(classname())
+                           'reference_class': draw(STUBNAME)
                            if t == 'reference' else None,
                            'embedded_object': None,
-                           'qualifiers': draw(_quals_from(decls, strings,
-                                                          max_size=1))})
+                           'qualifiers': _quals_from(draw, decls, 1)})
         meths.append({'k': 'meth', 'name': name,
-                      'return_type': draw(st.sampled_from(S.SIMPLE_TYPES)),
+                      'return_type': draw(SIMPLE_TYPE),
                       'parameters': params, 'class_origin': None,
                       'propagated': None,
-                      'qualifiers': draw(_quals_from(decls, strings))})
-    cls = {'k': 'class', 'classname': draw(classname()),
-           'superclass': draw(st.one_of(st.none(), st.none(), classname())),
+                      'qualifiers': _quals_from(draw, decls)})
+    cls = {'k': 'class', 'classname': draw(CLASSNAME),
+           'superclass': draw(OPT_STUB),
            'properties': props, 'methods': meths,
-           'qualifiers': draw(_quals_from(decls, strings, max_size=3))}
-    return {'decls': decls, 'cls': cls, 'maxline': draw(maxline_st())}
+           'qualifiers': _quals_from(draw, decls, 3)}
+    return {'decls': decls, 'cls': cls, 'maxline': draw(MAXLINE)}
 
 
-def maxline_st():
-    return st.one_of(st.sampled_from([40, 41, 60, 80, 80, 100, 200]),
-                     st.integers(40, 200))
+MAXLINE = st.one_of(st.sampled_from([40, 41, 60, 80, 80, 100, 200]),
+                    st.integers(40, 200))
 
 
 # ---- instances
 
-@st.composite
-def inst_recipe(draw, depth, cname, strings):
+INST_PLAIN_TYPE = st.sampled_from(S.SIMPLE_TYPES + ['string', 'string'])
+INST_KIND0 = st.sampled_from(['plain'] * 7 + ['ref'])
+INST_KIND1 = st.sampled_from(['plain'] * 7 + ['ref', 'emb', 'emb', 'emb'])
+INST_REF = st.one_of(st.none(), REF_PATH, REF_PATH, REF_PATH)
+EMB_KIND = st.sampled_from(['instance', 'object'])
+
+
+def inst_recipe(draw, depth, cname):
     """
     {'k': 'c08inst', 'classname', 'props': [{'name','type','is_array',
       'array_size','emb','refcls','value','in_inst','spell'}]}
@@ -422,62 +459,59 @@ def inst_recipe(draw, depth, cname, strings):
     seen = set()
     n = draw(st.integers(1, 5 if depth > 0 else 3))
     for i in range(n):
-        name = draw(ident())
+        name = draw(IDENT)
         if name.lower() in seen:
             continue
         seen.add(name.lower())
-        kinds = ['plain'] * 7 + ['ref']
-        if depth > 0:
-            kinds += ['emb', 'emb', 'emb']
-        kind = draw(st.sampled_from(kinds))
+        kind = draw(INST_KIND1 if depth > 0 else INST_KIND0)
         refcls = None
         emb = None
         asz = None
         if kind == 'ref':
             t, is_array = 'reference', False
-            value = draw(st.one_of(st.none(), ref_path(), ref_path(),
-                                   ref_path()))
-            refcls = value['classname'] if value else draw(classname())
+            value = draw(INST_REF)
+            refcls = value['classname'] if value else draw(STUBNAME)
         elif kind == 'emb':
             t = 'string'
             is_array = draw(st.booleans())
-            emb = draw(st.sampled_from(['instance', 'object']))
-            sub = draw(inst_recipe(depth - 1, '%s_E%d' % (cname, i), strings))
+            emb = draw(EMB_KIND)
+            sub = inst_recipe(draw, depth - 1, '%s_E%d' % (cname, i))
             if is_array:
                 if emb == 'instance':
                     value = [sub] * draw(st.integers(1, 2))
+                elif draw(st.booleans()):
+                    value = [sub, inst_recipe(draw, depth - 1,
+                                              '%s_F%d' % (cname, i))]
                 else:
-                    sub2 = draw(inst_recipe(depth - 1,
-                                            '%s_F%d' % (cname, i), strings))
-                    value = draw(st.sampled_from([[sub], [sub, sub2]]))
+                    value = [sub]
             else:
                 value = sub
         else:
-            t = draw(st.sampled_from(S.SIMPLE_TYPES + ['string', 'string']))
+            t = draw(INST_PLAIN_TYPE)
             is_array = draw(st.booleans())
-            asz = draw(st.one_of(st.none(), st.none(), st.integers(1, 3))) \
-                if is_array else None
-            value = draw(value_for(t, is_array, strings, null=0.15,
-                                   size=asz))
+            asz = draw(ARRAY_SIZE) if is_array else None
+            value = draw(value_for(t, is_array, 2, asz))
         spell = name
-        if draw(st.integers(0, 9)) == 0:
-            spell = _swap(name, draw(st.integers(1, 2 ** 12)))
+        if draw(SMALL) == 0:
+            spell = _swap(name, draw(MASK))
         props.append({'name': name, 'type': t, 'is_array': is_array,
                       'array_size': asz, 'emb': emb, 'refcls': refcls,
                       'value': value, 'spell': spell,
-                      'in_inst': draw(st.integers(0, 9)) > 0})
+                      'in_inst': draw(SMALL) > 0})
     if not any(p['in_inst'] for p in props):
         props[0]['in_inst'] = True
     return {'k': 'c08inst', 'classname': cname, 'props': props}
 
 
+DEPTH = st.sampled_from([0, 0, 1, 1, 2])
+
+
 @st.composite
 def inst_case(draw):
-    strings = mof_string()
-    depth = draw(st.sampled_from([0, 0, 1, 1, 2]))
-    cname = draw(classname())
-    return {'inst': draw(inst_recipe(depth, cname, strings)),
-            'maxline': draw(maxline_st())}
+    depth = draw(DEPTH)
+    cname = draw(CLASSNAME)
+    return {'inst': inst_recipe(draw, depth, cname),
+            'maxline': draw(MAXLINE)}
 
 
 # ---------------------------------------------------------------------------
@@ -594,41 +628,99 @@ def inst_dep_mof(r, done=None):
 # ---------------------------------------------------------------------------
 # compiling
 
-class _Shared:
-    comp = None
-    conn = None
-    count = 0
+class FoldSplit(Exception):
+    "not compiled: see backtracking_hazard()"
 
 
-def _new_compiler():
+class _Proto:
+    "parser tables and lexer rules, built once per process"
+    parser = None
+    lexer = None
+
+
+def _new_compiler(real=False):
+    """
+    A MOFCompiler that has never compiled anything, on a new
+    MOFWBEMConnection.  Building the LALR tables takes ~45 ms, so (unless
+    real=True) the parser object is a shallow copy of a never-used parser -
+    it shares only the tables, which parsing does not modify - and the lexer
+    a clone of a never-used lexer.
+    """
+    # pylint: disable=protected-access
     conn = MOFWBEMConnection()
-    comp = MOFCompiler(conn, log_func=None)
+    if real:
+        return MOFCompiler(conn, log_func=None), conn
+    if _Proto.parser is None:
+        _Proto.parser = _mof_compiler._yacc(False)
+        _Proto.lexer = _mof_compiler._lex(False)
+    saved = (_mof_compiler._yacc, _mof_compiler._lex)
+    _mof_compiler._yacc = lambda verbose=False, out_dir=None: \
+        copy.copy(_Proto.parser)
+    _mof_compiler._lex = lambda verbose=False, out_dir=None: \
+        _Proto.lexer.clone()
+    try:
+        comp = MOFCompiler(conn, log_func=None)
+    finally:
+        _mof_compiler._yacc, _mof_compiler._lex = saved
     return comp, conn
 
 
-def compile_mof(text, fresh):
+def compile_mof(text, real=False, guard=True):
     """
-    Compile text; returns (conn, ns, exc).  fresh=False uses the per-process
-    compiler with a namespace of its own.
+    Compile text with a new compiler into namespace NS; returns
+    (conn, exc).
     """
-    if fresh:
-        comp, conn = _new_compiler()
-        ns = NS
-    else:
-        if _Shared.comp is None or _Shared.count % 500 == 499:
-            _Shared.comp, _Shared.conn = _new_compiler()
-        comp, conn = _Shared.comp, _Shared.conn
-        _Shared.count += 1
-        ns = 'c08/n%d' % _Shared.count
+    if guard and backtracking_hazard(text):
+        return None, FoldSplit()
+    comp, conn = _new_compiler(real)
     try:
         with warnings.catch_warnings():
             warnings.simplefilter('ignore')
-            comp.compile_string(text, ns)
+            comp.compile_string(text, NS)
     except Exception as exc:  # pylint: disable=broad-except
-        if not fresh:
-            _Shared.comp = None
-        return conn, ns, exc
-    return conn, ns, None
+        return conn, exc
+    return conn, None
+
+
+# signatures that were confirmed with a really new MOFCompiler (real=True)
+_CONFIRMED = set()
+
+
+def roundtrip(ctx, text, what, evaluate, emb_texts=(), guard=True,
+              exc_sig=None):
+    """
+    Compile `text`, evaluate(conn) -> list of (signature, detail); report
+    the failures.  A signature seen for the first time in this process is
+    confirmed with a MOFCompiler built the regular way.
+    """
+    def once(real):
+        conn, exc = compile_mof(text, real, guard)
+        if exc is not None:
+            sig = exc_sig(exc) if exc_sig else None
+            if sig is None:
+                sig = compile_failure_sig(exc, text, emb_texts)
+            if sig is None:
+                sig = 'compile-raises:' + (exc_signature(exc) or
+                                           type(exc).__name__)
+            return [(sig, '%s does not compile: %r\n--- MOF ---\n%s\n%s' % (
+                what, exc, text[:1500], exc_detail(exc, 4)))]
+        out = []
+        seen = set()
+        for sig, detail in evaluate(conn):
+            if sig not in seen:
+                seen.add(sig)
+                out.append((sig, detail + '\n--- MOF ---\n' + text[:1500]))
+        return out
+    found = once(False)
+    if found and not all(sig in _CONFIRMED for sig, _ in found):
+        again = once(True)
+        if sorted(x for x, _ in again) != sorted(x for x, _ in found):
+            ctx.event('prototype-compiler-discrepancy')
+        else:
+            _CONFIRMED.update(x for x, _ in again)
+        found = again
+    for sig, detail in found:
+        ctx.fail(sig, detail)
 
 
 # ---------------------------------------------------------------------------
@@ -685,6 +777,18 @@ def fold_splits_escape(text):
     return False
 
 
+def backtracking_hazard(text):
+    """
+    The compiler's string token pattern backtracks exponentially on a
+    malformed literal that contains many \\xNNNN escapes.  A text in which a
+    fold splits an escape sequence is malformed for certain, so such a text
+    is reported from the scan alone when it holds more than a few hex escapes
+    (otherwise the case would only time out).
+    """
+    return text.count('\\x') + text.count('\\X') > 5 and \
+        fold_splits_escape(text)
+
+
 def has_fold(text):
     return FOLD_RE.search(text) is not None
 
@@ -713,41 +817,67 @@ REAL_NOFRAC_RE = re.compile(r'(?<![\w.])[+-]?[0-9]+[eE][+-]?[0-9]+')
 
 def _norm_msg(msg):
     msg = re.sub(r"'[^']*'|\"[^\"]*\"", '_', msg)
+    msg = re.sub(r'\S*[:/]\S*', '_', msg)
     msg = re.sub(r'[0-9]+', 'N', msg)
     return re.sub(r'\s+', '-', msg.strip())[:60]
 
 
-def compile_failure_sig(exc, text):
+class _Probe:
+    apostrophe = None
+
+
+def apostrophe_defect_present():
+    """
+    Does the compiler of this tree drop the apostrophe of \' ?  Probed once
+    per process; used only to name the root cause of failures inside
+    embedded-instance MOF (where a dropped apostrophe has arbitrary
+    secondary effects: char16 literals lose their quotes, ...).
+    """
+    if _Probe.apostrophe is None:
+        conn, exc = compile_mof(
+            'Qualifier Q : string = "a\\\'b", Scope(any);\n', real=True)
+        _Probe.apostrophe = exc is not None or \
+            conn.qualifiers[NS]['Q'].value != "a'b"
+    return _Probe.apostrophe
+
+
+def embedded_texts(inst):
+    "tomof() texts of all embedded instances (as tomof() nests them)"
+    out = []
+    for p in inst.properties.values():
+        vals = p.value if isinstance(p.value, list) else [p.value]
+        for v in vals:
+            if isinstance(v, CIMInstance):
+                out.append(v.tomof())
+                out.extend(embedded_texts(v))
+    return out
+
+
+def _error_line(exc, text):
+    "the MOF source line a MOFCompileError points at, or None"
+    context = getattr(exc, 'context', None)
+    if isinstance(context, list) and len(context) >= 2:
+        return context[-2]
+    return None
+
+
+def compile_failure_sig(exc, text, emb_texts=()):
     """
     Root cause of "the compiler does not accept the tomof() text", or None
     (then the exception signature is used).
     """
-    if fold_splits_escape(text):
+    if fold_splits_escape(text) or any(fold_splits_escape(t)
+                                       for t in emb_texts):
         return 'tomof:fold-splits-escape-sequence'
-    lines = text.split('\n')
-    lineno = getattr(exc, 'lineno', None)
-    cand = lines
-    if isinstance(lineno, int) and 1 <= lineno <= len(lines):
-        cand = [lines[lineno - 1]]
-    if not has_fold(text) or cand is not lines:
-        for ln in cand:
-            if REAL_NOFRAC_RE.search(strip_literals(ln)):
-                return 'tomof:real-in-exponent-form-without-fraction'
+    ln = _error_line(exc, text)
+    if ln is not None and REAL_NOFRAC_RE.search(strip_literals(ln)):
+        return 'tomof:real-in-exponent-form-without-fraction'
+    if any("'" in t for t in emb_texts) and apostrophe_defect_present():
+        return 'compiler:escaped-apostrophe-dropped'
     if isinstance(exc, MOFCompileError):
         return 'compile-rejected:%s:%s' % (type(exc).__name__,
                                            _norm_msg(exc.msg or ''))
     return None
-
-
-def report_compile_failure(ctx, exc, text, what):
-    sig = compile_failure_sig(exc, text)
-    detail = '%s does not compile: %r\n--- MOF ---\n%s\n%s' % (
-        what, exc, text[:1500], exc_detail(exc, 4))
-    if sig is None:
-        from .runner import exc_signature
-        sig = 'compile-raises:' + (exc_signature(exc) or
-                                   type(exc).__name__)
-    ctx.fail(sig, detail)
 
 
 # ---------------------------------------------------------------------------
@@ -759,9 +889,11 @@ class Diff:
     def __init__(self, text):
         self.text = text
         self.items = []
+        self.override = None    # signature for everything found meanwhile
 
     def add(self, sig, path, a, b):
-        self.items.append((sig, '%s: original %.300r, compiled %.300r' %
+        self.items.append((self.override or sig,
+                           '%s: original %.300r, compiled %.300r' %
                            (path, a, b)))
 
 
@@ -795,6 +927,14 @@ def _scalar_sig(t, a, b, text, where):
         if type(b) is not S.REAL_TYPES[t]:
             return 'value:%s:wrong-class-%s' % (t, type(b).__name__)
         return 'value:real:changed'
+    if t == 'reference' and isinstance(b, CIMInstanceName) and \
+            "'" in a.to_wbem_uri() and apostrophe_defect_present():
+        c = a.copy()
+        for k, v in list(c.keybindings.items()):
+            if isinstance(v, str):
+                c.keybindings[k] = v.replace("'", '')
+        if c == b:
+            return 'compiler:escaped-apostrophe-dropped'
     return 'value:%s:changed' % t
 
 
@@ -838,7 +978,12 @@ def diff_value(d, path, t, a, b, where='value'):
         if not isinstance(b, CIMInstance):
             d.add('value:embedded-instance-not-compiled', path, a, b)
             return
+        saved = d.override
+        if saved is None and "'" in a.tomof() and \
+                apostrophe_defect_present():
+            d.override = 'compiler:escaped-apostrophe-dropped'
         diff_instance(d, path, a, b)
+        d.override = saved
         return
     if not _scalar_equal(t, a, b):
         d.add(_scalar_sig(t, a, b, d.text, where), path, a, b)
@@ -973,15 +1118,6 @@ def diff_qualdecl(d, a, b):
     diff_flavors(d, 'qualdecl', a, b)
 
 
-def report_diffs(ctx, d, text):
-    seen = set()
-    for sig, detail in d.items:
-        if sig in seen:
-            continue
-        seen.add(sig)
-        ctx.fail(sig, detail + '\n--- MOF ---\n' + text[:1500])
-
-
 # ---------------------------------------------------------------------------
 # recipe classification (non-trivial rule, class counters)
 
@@ -1070,7 +1206,7 @@ def type_classes(recipe):
 # sub-check: qualdecl
 
 def qualdecl_strategy():
-    return st.tuples(qualdecl_recipe(mof_string()), maxline_st())
+    return st.tuples(QUALDECL, MAXLINE)
 
 
 def _tomof(ctx, obj, maxline, what):
@@ -1095,28 +1231,17 @@ def qualdecl_oracle(ctx, ex):
     cl.add('flavors:none' if fl == (None, None, None) else 'flavors:some')
     cl.add('scopes:%d' % min(sum(1 for _, on in r['scopes'] if on), 8))
 
-    def run(fresh):
-        conn, ns, exc = compile_mof(text, fresh)
-        if exc is not None:
-            return exc, None
+    def evaluate(conn):
         d = Diff(text)
         try:
-            got = conn.qualifiers[ns][orig.name]
+            got = conn.qualifiers[NS][orig.name]
         except KeyError:
             d.add('compiled-object-missing', 'qualifier declaration',
                   orig.name, None)
-            return None, d
+            return d.items
         diff_qualdecl(d, orig, got)
-        return None, d
-    exc, d = run(False)
-    if exc is not None or d.items:
-        exc, d = run(True)
-        if exc is None and not d.items:
-            ctx.event('shared-compiler-discrepancy')
-    if exc is not None:
-        report_compile_failure(ctx, exc, text, 'qualifier declaration')
-    elif d.items:
-        report_diffs(ctx, d, text)
+        return d.items
+    roundtrip(ctx, text, 'qualifier declaration', evaluate)
     ctx.case(nontrivial=nt1 or nt2, classes=cl)
 
 
@@ -1158,27 +1283,16 @@ def cls_oracle(ctx, ex):
         ''.join('class %s {\n};\n' % n for n in cls_stub_names(r))
     text = pre + body
 
-    def run(fresh):
-        conn, ns, exc = compile_mof(text, fresh)
-        if exc is not None:
-            return exc, None
+    def evaluate(conn):
         d = Diff(body)
         try:
-            got = conn.classes[ns][orig.classname]
+            got = conn.classes[NS][orig.classname]
         except KeyError:
             d.add('compiled-object-missing', 'class', orig.classname, None)
-            return None, d
+            return d.items
         diff_class(d, orig, got)
-        return None, d
-    exc, d = run(False)
-    if exc is not None or d.items:
-        exc, d = run(True)
-        if exc is None and not d.items:
-            ctx.event('shared-compiler-discrepancy')
-    if exc is not None:
-        report_compile_failure(ctx, exc, text, 'class')
-    elif d.items:
-        report_diffs(ctx, d, text)
+        return d.items
+    roundtrip(ctx, text, 'class', evaluate)
     ctx.case(nontrivial=nt1 or nt2, classes=cl)
 
 
@@ -1208,27 +1322,23 @@ def inst_oracle(ctx, ex):
     cl |= cl2
     cl.add('embedded-depth:%d' % _emb_depth(r))
     text = EMB_DECLS + inst_dep_mof(r) + body
+    embt = embedded_texts(orig)
+    if any(backtracking_hazard(t) for t in embt):
+        ctx.fail('tomof:fold-splits-escape-sequence',
+                 'in the MOF of an embedded instance:\n' + text[:1500])
+        ctx.event('reported-from-scan-only')
+        ctx.case(nontrivial=True, classes=cl)
+        return
 
-    def run(fresh):
-        conn, ns, exc = compile_mof(text, fresh)
-        if exc is not None:
-            return exc, None
+    def evaluate(conn):
         d = Diff(body)
-        insts = conn.instances.get(ns, [])
+        insts = conn.instances.get(NS, [])
         if len(insts) != 1:
             d.add('compiled-object-missing', 'instances', 1, len(insts))
-            return None, d
+            return d.items
         diff_instance(d, 'instance', orig, insts[0])
-        return None, d
-    exc, d = run(False)
-    if exc is not None or d.items:
-        exc, d = run(True)
-        if exc is None and not d.items:
-            ctx.event('shared-compiler-discrepancy')
-    if exc is not None:
-        report_compile_failure(ctx, exc, text, 'instance')
-    elif d.items:
-        report_diffs(ctx, d, text)
+        return d.items
+    roundtrip(ctx, text, 'instance', evaluate, emb_texts=embt)
     ctx.case(nontrivial=nt1 or nt2, classes=cl)
 
 
@@ -1250,7 +1360,7 @@ def _lexer():
 
 def mofstr_strategy():
     return st.tuples(
-        mof_string(), maxline_st(),
+        STRINGS, MAXLINE,
         st.sampled_from([3, 6, 7, 10, 13]),                 # indent
         st.one_of(st.integers(0, 60), st.integers(0, 220)),  # line_pos
         st.sampled_from([0, 1, 3, 5]), st.booleans())
@@ -1273,6 +1383,11 @@ def mofstr_oracle(ctx, ex):
     detail = 'mofstr(%r, indent=%d, maxline=%d, line_pos=%d, end_space=%d, ' \
         'avoid_splits=%r) = %r' % (s, indent, maxline, line_pos, end_space,
                                    avoid, out)
+    if backtracking_hazard(out):
+        ctx.fail('tomof:fold-splits-escape-sequence', detail)
+        ctx.event('reported-from-scan-only')
+        ctx.case(nontrivial=True, classes=cl)
+        return
     lexer = _lexer()
     lexer.input(out)
     parts = []
@@ -1303,10 +1418,8 @@ def mofstr_oracle(ctx, ex):
                 ctx.fail_exc(exc, 'unescape-raises')
             got = s
         if got != s:
-            d = Diff(out)
-            d.add(_scalar_sig('string', s, got, out, 'value'), 'mofstr', s,
-                  got)
-            report_diffs(ctx, d, detail)
+            ctx.fail(_scalar_sig('string', s, got, out, 'value'),
+                     '%s\nparts denote %r' % (detail, got))
     ctx.case(nontrivial=bool(esc or 'fold' in cl), classes=cl)
 
 
@@ -1320,7 +1433,7 @@ _SIMPLE_ESC = {'b': '\b', 't': '\t', 'n': '\n', 'f': '\f', 'r': '\r',
 def _hw_piece():
     lit = st.one_of(
         st.sampled_from(list("abcxyzABCDEF019 ',;{}()/*#$=:") +
-                        ['\xe4', '€', '\U0001F600', '\x7f', '\x85']),
+                        ['\xe4', '\u20ac', '\U0001F600', '\x7f', '\x85']),
         st.characters(min_codepoint=0x20, blacklist_categories=('Cs',),
                       blacklist_characters='"\\'))
     simple = st.sampled_from(sorted(_SIMPLE_ESC))
@@ -1391,6 +1504,16 @@ def _hw_render(parts):
     return srcs, ''.join(denoted), stats
 
 
+def _nonascii_digit_after_short_hex(parts):
+    "a \\x escape of < 4 digits directly followed by e.g. SUPERSCRIPT TWO"
+    for part in parts:
+        for (k1, p1), (k2, p2) in zip(part, part[1:]):
+            if k1 == 'x' and k2 == 'c' and ord(p2) > 127 and p2.isdigit():
+                if max(p1[2], len('%x' % p1[1])) < 4:
+                    return True
+    return False
+
+
 def handwritten_oracle(ctx, ex):
     parts, seps, pos = ex
     srcs, denoted, stats = _hw_render(parts)
@@ -1413,14 +1536,14 @@ def handwritten_oracle(ctx, ex):
         text = ('class C {\n  string P[];\n};\n'
                 'instance of C {\n  P = { "a", %s, "z" };\n};\n' % lit)
 
-    def fetch(conn, ns):
+    def fetch(conn):
         if pos == 'qualdecl':
-            return conn.qualifiers[ns]['Q'].value
+            return conn.qualifiers[NS]['Q'].value
         if pos == 'propdefault':
-            return conn.classes[ns]['C'].properties['P'].value
+            return conn.classes[NS]['C'].properties['P'].value
         if pos == 'qualvalue':
-            return conn.classes[ns]['C'].qualifiers['Q'].value
-        v = conn.instances[ns][0].properties['P'].value
+            return conn.classes[NS]['C'].qualifiers['Q'].value
+        v = conn.instances[NS][0].properties['P'].value
         if pos == 'array':
             if not isinstance(v, list) or len(v) != 3 or v[0] != 'a' or \
                     v[2] != 'z':
@@ -1428,39 +1551,34 @@ def handwritten_oracle(ctx, ex):
             return v[1]
         return v
 
-    def run(fresh):
-        conn, ns, exc = compile_mof(text, fresh)
-        if exc is not None:
-            return exc, None
-        return None, fetch(conn, ns)
-    exc, got = run(False)
-    if exc is not None or got != denoted:
-        exc, got = run(True)
-        if exc is None and got == denoted:
-            ctx.event('shared-compiler-discrepancy')
-    detail = 'MOF %r denotes %r' % (text, denoted)
-    if exc is not None:
-        # which literal ends with a hex escape of < 4 digits?
+    def exc_sig(exc):
+        # a literal that ends with a hex escape of < 4 digits
         if isinstance(exc, IndexError) and any(
                 re.search(r'\\[xX][0-9a-fA-F]{1,3}$', s) for s in srcs):
-            ctx.fail('compiler:short-hex-escape-at-end-of-literal-raises-'
-                     'IndexError', detail + '\n' + exc_detail(exc, 3))
-        elif isinstance(exc, MOFCompileError):
-            ctx.fail('compile-rejected:%s:%s' % (type(exc).__name__,
-                                                 _norm_msg(exc.msg or '')),
-                     detail + '\n%r' % (exc,))
-        else:
-            ctx.fail_exc(exc, 'compile-raises')
-    elif got != denoted:
+            return 'compiler:short-hex-escape-at-end-of-literal-raises-' \
+                'IndexError'
+        if isinstance(exc, MOFCompileError):
+            return 'compile-rejected:%s:%s' % (type(exc).__name__,
+                                               _norm_msg(exc.msg or ''))
+        return None
+
+    def evaluate(conn):
+        got = fetch(conn)
+        if got == denoted:
+            return []
         if isinstance(got, str) and "\\'" in ''.join(srcs) and \
                 got.replace("'", '') == denoted.replace("'", '') and \
                 got.count("'") < denoted.count("'"):
             sig = 'compiler:escaped-apostrophe-dropped'
         elif not isinstance(got, str):
             sig = 'value:wrong-shape'
+        elif _nonascii_digit_after_short_hex(parts):
+            sig = 'compiler:hex-escape-swallows-non-ascii-digit'
         else:
             sig = 'value:string:changed'
-        ctx.fail(sig, detail + ', compiled %r' % (got,))
+        return [(sig, 'denotes %r, compiled %r' % (denoted, got))]
+    roundtrip(ctx, text, 'hand-written MOF', evaluate, guard=False,
+              exc_sig=exc_sig)
     cl = set(stats)
     cl.add('pos:' + pos)
     cl.add('parts:%d' % len(srcs))
@@ -1473,8 +1591,8 @@ def handwritten_oracle(ctx, ex):
 # sub-check: non-ASCII identifiers
 
 def nonascii_strategy():
-    letter = st.sampled_from(['\xe4', '\xe9', '\xd6', 'α', 'Ж',
-                              '中', 'Ａ'])
+    letter = st.sampled_from(['\xe4', '\xe9', '\xd6', '\u03b1', '\u0416',
+                              '\u4e2d', '\uff21'])
     name = st.builds(lambda a, b, c: a + b + c, S.ident(1, 4), letter,
                      st.text(alphabet=_ID_CONT, max_size=4))
     return st.tuples(name, name, st.sampled_from(['class', 'property',
@@ -1490,20 +1608,20 @@ def nonascii_oracle(ctx, ex):
     orig = CIMClass(cname, properties=[CIMProperty(pname, None,
                                                    type='uint8')])
     text = orig.tomof()
-    conn, ns, exc = compile_mof(text, fresh=True)
-    if exc is not None:
+
+    def exc_sig(exc):
         if isinstance(exc, MOFCompileError):
-            ctx.fail('compiler:non-ascii-identifier-rejected',
-                     '%r does not compile: %r' % (text, exc))
-        else:
-            ctx.fail_exc(exc, 'compile-raises')
-    else:
+            return 'compiler:non-ascii-identifier-rejected'
+        return None
+
+    def evaluate(conn):
         d = Diff(text)
         try:
-            diff_class(d, orig, conn.classes[ns][cname])
+            diff_class(d, orig, conn.classes[NS][cname])
         except KeyError:
             d.add('compiled-object-missing', 'class', cname, None)
-        report_diffs(ctx, d, text)
+        return d.items
+    roundtrip(ctx, text, 'class', evaluate, exc_sig=exc_sig)
     ctx.case(nontrivial=True, classes=('where:' + where,))
 
 
@@ -1519,15 +1637,16 @@ def inst_strategy():
 
 SUBCHECKS = [
     Sub('mofstr', strategy=mofstr_strategy, oracle=mofstr_oracle,
-        quick=(8, 2500), thorough=(16, 60000)),
+        quick=(8, 2500), thorough=(16, 60000), case_timeout=10),
     Sub('handwritten', strategy=handwritten_strategy,
-        oracle=handwritten_oracle, quick=(8, 1200), thorough=(16, 20000)),
+        oracle=handwritten_oracle, quick=(8, 500), thorough=(16, 20000),
+        case_timeout=10),
     Sub('qualdecl', strategy=qualdecl_strategy, oracle=qualdecl_oracle,
-        quick=(16, 700), thorough=(16, 12000)),
+        quick=(16, 700), thorough=(16, 12000), case_timeout=10),
     Sub('cls', strategy=cls_strategy, oracle=cls_oracle,
-        quick=(16, 500), thorough=(16, 8000)),
+        quick=(16, 500), thorough=(16, 8000), case_timeout=10),
     Sub('inst', strategy=inst_strategy, oracle=inst_oracle,
-        quick=(16, 500), thorough=(16, 8000)),
+        quick=(16, 500), thorough=(16, 8000), case_timeout=10),
     Sub('nonascii', strategy=nonascii_strategy, oracle=nonascii_oracle,
         quick=(1, 40), thorough=(1, 200)),
 ]
